@@ -736,6 +736,13 @@ class Engine:
                 through_elem = True
             cur = nxt
         last = elems[-1]
+        if last[0] == 'f' and isinstance(cur, StructV) and isinstance(cur.prov, tuple) and cur.prov and \
+                (cur.prov == ('cursor.attr',) or cur.prov[:2] == ('derived', 'cursor.attr')):
+            live = root == S_ROOT and [e[1] for e in elems[:-1] if e[0] == 'f'] == ['cursor', 'attr']
+            if not live:
+                # a copy of the cursor rendition with a field overwritten is no longer "the cursor rendition"
+                done = cur.prov[2] if cur.prov[0] == 'derived' else frozenset()
+                cur = StructV(cur.ty, cur.fields, ('derived', 'cursor.attr', done | {last[1]}))
         trail.append((cur, last))
         if last[0] == 'e':
             through_elem = True
@@ -1635,6 +1642,32 @@ class Engine:
 
     INV_PATHS = (('cursor', 'x'), ('cursor', 'y'), ('margins',), ('columns',), ('lines',), ('saved_columns',))
 
+    def loop_iter_desc(self, st, fr, head):
+        """('range', lo, hi, incl, opnames) when the loop head calls next() on a range iterator (as it
+        stands on entry to the loop), else None"""
+        t = fr.body.blocks[head]['term']
+        if t['k'] != 'call' or t['func']['k'] != 'const' or 'fn' not in t['func'] or not t['args']:
+            return None
+        name = t['func']['fn'].get('resolved') or t['func']['fn']['path']
+        if not name.endswith('::next') or t['args'][0]['k'] not in ('copy', 'move'):
+            return None
+        s2 = st.fork()
+        try:
+            for s_ in fr.body.blocks[head]['stmts']:
+                self.stmt(s2, fr, s_)
+            v = self.operand(s2, fr, t['args'][0])
+            hops = 0
+            while isinstance(v, RefV) and hops < 3:
+                v = self.read(s2, v.path)
+                hops += 1
+        except Exception:
+            return None
+        if isinstance(v, StructV) and v.ty.startswith('std::ops::Range'):
+            return ('range', v.fields.get('start'), v.fields.get('end'), 'Inclusive' in v.ty, ())
+        if isinstance(v, IterV) and v.kind == 'range':
+            return ('range', v.args[0], v.args[1], bool(v.args[2]), tuple(o[0] for o in v.ops))
+        return None
+
     def loop_written(self, fr, head, blocks):
         if self.effects is None:
             return set(self.INV_PATHS)
@@ -1696,7 +1729,7 @@ class Engine:
         if w:
             from . import inv
             inv.havoc_screen(self, st, w)
-        st.log(('loop-head', fr.func, head, fr.uid))
+        st.log(('loop-head', fr.func, head, fr.uid, self.loop_iter_desc(st, fr, head)))
         if S_ROOT in st.store:
             from . import inv as _inv
             try:
